@@ -275,6 +275,73 @@ def downs (prev : Bool) : List Bool → Nat
 
 /-! ### the step invariant of the two-member system -/
 
+/-! facts about the per-object functions -/
+
+@[simp] theorem setAuthority_execs (o : Obj) (b : Bool) : (setAuthority o b).execs = o.execs := by
+  unfold setAuthority; split <;> (try split) <;> rfl
+
+@[simp] theorem setAuthority_stash (o : Obj) (b : Bool) : (setAuthority o b).stash = o.stash := by
+  unfold setAuthority; split <;> (try split) <;> rfl
+
+@[simp] theorem applyVerdict_execs (c : ObjCfg) (o : Obj) (v : Verdict) : (applyVerdict c o v).execs = o.execs := by
+  unfold applyVerdict; split <;> (try split) <;> simp
+
+@[simp] theorem applyVerdict_stash (c : ObjCfg) (o : Obj) (v : Verdict) : (applyVerdict c o v).stash = o.stash := by
+  unfold applyVerdict; split <;> (try split) <;> simp
+
+theorem applyVerdict_bound (c : ObjCfg) (o : Obj) (v : Verdict) (n : Nat) (h : o.execs + o.stash ≤ n) :
+    (applyVerdict c o v).execs + (applyVerdict c o v).stash ≤ n := by simpa using h
+
+theorem fresh_work (c : ObjCfg) : (fresh c).execs = 0 ∧ (fresh c).stash = 0 := by
+  unfold fresh; split <;> simp
+
+/-- What a notification request does to an object, as far as the property is concerned. -/
+theorem requestObj_props (u : Bool) (c : ObjCfg) (o : Obj) :
+    sameAuth o (requestObj u c o) = true ∧ o.execs ≤ (requestObj u c o).execs ∧
+    (requestObj u c o).execs + (requestObj u c o).stash ≤ o.execs + o.stash + 1 ∧
+    (o.paused = true → (requestObj u c o).execs = o.execs) ∧
+    (c.kind = .other → requestObj u c o = o) := by
+  unfold requestObj sameAuth
+  cases hk : c.kind <;> cases u <;> cases hp : o.paused <;> simp [hp] <;> (try split) <;> (try simp) <;> (try omega)
+
+/-- What a run of the notification timer does to an object. -/
+theorem ntimerObj_props (u ep : Bool) (c : ObjCfg) (o : Obj) :
+    sameAuth o (ntimerObj u ep c o) = true ∧ o.execs ≤ (ntimerObj u ep c o).execs ∧
+    (ntimerObj u ep c o).execs + (ntimerObj u ep c o).stash ≤ o.execs + o.stash ∧
+    (ep = true → o.paused = true → (ntimerObj u ep c o).execs = o.execs) ∧
+    (c.kind = .other → ntimerObj u ep c o = o) := by
+  unfold ntimerObj sameAuth
+  cases hk : c.kind <;> cases ha : c.active <;> cases u <;> cases ep <;> cases hp : o.paused <;> simp [hp]
+
+/-- What a due check does to an object. -/
+theorem dueObj_props (c : ObjCfg) (o : Obj) :
+    sameAuth o (dueObj c o) = true ∧ o.execs ≤ (dueObj c o).execs ∧
+    (dueObj c o).execs + (dueObj c o).stash ≤ o.execs + o.stash + 1 ∧
+    (o.paused = true → (dueObj c o).execs = o.execs) ∧
+    (c.kind = .other → dueObj c o = o) ∧
+    (c.kind = .checkable → c.active = true → o.paused = false → (dueObj c o).execs = o.execs + 1) := by
+  unfold dueObj sameAuth
+  cases hk : c.kind <;> cases ha : c.active <;> cases hp : o.paused <;> simp [hp] <;> (try omega)
+
+/-- `checkWork` passes when the new object state has the properties above. -/
+theorem checkWork_ok (c : ObjCfg) (sh sh' : SpecHalf) (silent : Bool) (o o' : Obj)
+    (hprev : sh.prev = o) (h1 : sameAuth o o' = true) (h2 : o.execs ≤ o'.execs) (h3 : o'.execs ≤ sh'.asked)
+    (h4 : silent = true → o.paused = true → o'.execs = o.execs) (h5 : c.kind = .other → o' = o) :
+    checkWork c sh sh' silent o' = none := by
+  unfold checkWork
+  rw [hprev]
+  have e1 : (!sameAuth o o') = false := by simp [h1]
+  have e3 : (decide (o'.execs < o.execs) || decide (o'.execs > sh'.asked)) = false := by
+    simp only [Bool.or_eq_false_iff, decide_eq_false_iff_not]; omega
+  have e2 : (silent && o.paused && (o'.execs != o.execs)) = false := by
+    cases hs : silent <;> cases hp : o.paused <;> simp
+    exact h4 hs hp
+  have e4 : (c.kind == .other && (o'.execs != o.execs || o'.stash != o.stash)) = false := by
+    cases hk : c.kind <;> simp
+    rw [h5 hk]; simp
+  simp only [e1, e2, e3, e4]
+  simp
+
 /-- How the specification's bookkeeping relates to one side of the model. -/
 structure RelHalf (c : ObjCfg) (ow : Bool) (sh : SpecHalf) (h : Half) : Prop where
   sees : sh.sees = h.sees
@@ -283,6 +350,7 @@ structure RelHalf (c : ObjCfg) (ow : Bool) (sh : SpecHalf) (h : Half) : Prop whe
   paired : touched c = true → sh.mode = .paired → h.obj.paused = !ow
   alone : touched c = true → sh.mode = .alone → h.obj.paused = false
   everywhere : c.active = true → c.runOnce = false → h.obj.paused = false
+  bound : h.obj.execs + h.obj.stash ≤ sh.asked
 
 structure Rel (nA nB : Name) (c : ObjCfg) (sp : SpecSt) (p : Pair) : Prop where
   a : RelHalf c (own nA nB c.name .A) sp.a p.a
@@ -290,11 +358,24 @@ structure Rel (nA nB : Name) (c : ObjCfg) (sp : SpecSt) (p : Pair) : Prop where
   split : ∀ x, sp.split = some x → x = own nA nB c.name .A
 
 theorem rel_init (nA nB : Name) (c : ObjCfg) : Rel nA nB c (specInit c) (initPair c) := by
-  refine ⟨⟨rfl, rfl, rfl, ?_, ?_, ?_⟩, ⟨rfl, rfl, rfl, ?_, ?_, ?_⟩, ?_⟩ <;>
-    simp [specInit, initPair] <;> intro ha hr <;> exact fresh_paused_runEverywhere c ha hr
+  have hw := fresh_work c
+  refine ⟨⟨rfl, rfl, rfl, ?_, ?_, ?_, ?_⟩, ⟨rfl, rfl, rfl, ?_, ?_, ?_, ?_⟩, ?_⟩ <;>
+    simp [specInit, initPair, hw.1, hw.2] <;> intro ha hr <;> exact fresh_paused_runEverywhere c ha hr
 
 theorem touched_not_everywhere (c : ObjCfg) (ht : touched c = false) (o : Obj) (v : Verdict) :
     applyVerdict c o v = o := by simp [applyVerdict, ht]
+
+/-- The work events (request / notification timer / due check): `paused`, the counters and the modes stay, the
+    checks pass. -/
+theorem work_step (c : ObjCfg) (ow : Bool) (sh : SpecHalf) (h : Half) (hr : RelHalf c ow sh h)
+    (o' : Obj) (k : Nat) (hauth : sameAuth h.obj o' = true) (hb : o'.execs + o'.stash ≤ sh.asked + k) :
+    RelHalf c ow { sh with prev := o', asked := sh.asked + k } { h with obj := o' } := by
+  simp only [sameAuth, Bool.and_eq_true, beq_iff_eq] at hauth
+  obtain ⟨⟨hp, _⟩, _⟩ := hauth
+  refine ⟨hr.sees, hr.start, rfl, ?_, ?_, ?_, hb⟩
+  · intro ht hm; rw [hp]; exact hr.paired ht hm
+  · intro ht hm; rw [hp]; exact hr.alone ht hm
+  · intro ha hro; rw [hp]; exact hr.everywhere ha hro
 
 /-- One side: the addressed side passes its own checks and keeps the relation. -/
 theorem half_step (l : Layout) (nA nB : Name) (hne : nA ≠ nB) (c : ObjCfg) (s : Side) (e : Ev)
@@ -302,20 +383,44 @@ theorem half_step (l : Layout) (nA nB : Name) (hne : nA ≠ nB) (c : ObjCfg) (s 
     let h' := stepHalf l nA nB c s h e
     let sh' := specHalfNext l sh e h'.obj
     checkOwn l c sh sh' e h'.obj = none ∧ RelHalf c (own nA nB c.name s) sh' h' := by
-  obtain ⟨hsees, hstart, hprev, hpaired, halone, hev⟩ := hr
+  have hr0 := hr
+  obtain ⟨hsees, hstart, hprev, hpaired, halone, hev, hbound⟩ := hr
   cases e with
+  | request s' =>
+    obtain ⟨p1, p2, p3, p4, p5⟩ := requestObj_props h.updated c h.obj
+    simp only [stepHalf]
+    refine ⟨?_, work_step c _ sh h hr0 _ 1 p1 (by omega)⟩
+    exact checkWork_ok c sh _ true h.obj _ hprev p1 p2 (by simp only [specHalfNext]; omega) (fun _ => p4) p5
+  | ntimer s' =>
+    obtain ⟨p1, p2, p3, p4, p5⟩ := ntimerObj_props h.updated (l != .noZone) c h.obj
+    simp only [stepHalf]
+    refine ⟨?_, ?_⟩
+    · exact checkWork_ok c sh _ (l != .noZone) h.obj _ hprev p1 p2 (by simp only [specHalfNext]; omega) p4 p5
+    · have := work_step c _ sh h hr0 _ 0 p1 (by omega)
+      simpa [specHalfNext, stepHalf] using this
+  | due s' =>
+    obtain ⟨p1, p2, p3, p4, p5, p6⟩ := dueObj_props c h.obj
+    simp only [stepHalf]
+    refine ⟨?_, work_step c _ sh h hr0 _ 1 p1 (by omega)⟩
+    have hw := checkWork_ok c sh (specHalfNext l sh (.due s') (dueObj c h.obj)) true h.obj _ hprev p1 p2
+      (by simp only [specHalfNext]; omega) (fun _ => p4) p5
+    simp only [checkOwn, stepHalf, hw, hprev]
+    cases hk : c.kind <;> cases ha : c.active <;> cases hp : h.obj.paused <;> simp
+    exact p6 hk ha hp
   | boot s' start =>
-    refine ⟨by simp [stepHalf, checkOwn], ⟨rfl, rfl, rfl, ?_, ?_, ?_⟩⟩
+    have hw := fresh_work c
+    refine ⟨by simp [stepHalf, checkOwn], ⟨rfl, rfl, rfl, ?_, ?_, ?_, ?_⟩⟩
     · intro _ hm; simp [specHalfNext] at hm
     · intro _ hm; simp [specHalfNext] at hm
     · intro ha hr; exact fresh_paused_runEverywhere c ha hr
+    · simp [stepHalf, specHalfNext, hw.1, hw.2]
   | link s' up =>
-    refine ⟨by simp [stepHalf, checkOwn, hprev], ⟨rfl, hstart, rfl, ?_, ?_, ?_⟩⟩
+    refine ⟨by simp [stepHalf, checkOwn, hprev], ⟨rfl, hstart, rfl, ?_, ?_, ?_, hbound⟩⟩
     · intro _ hm; simp [specHalfNext] at hm
     · intro _ hm; simp [specHalfNext] at hm
     · exact hev
   | idle s' =>
-    refine ⟨by simp [stepHalf, checkOwn, hprev], ⟨hsees, hstart, rfl, ?_, ?_, ?_⟩⟩
+    refine ⟨by simp [stepHalf, checkOwn, hprev], ⟨hsees, hstart, rfl, ?_, ?_, ?_, hbound⟩⟩
     · intro ht hm; exact hpaired ht (by simpa [specHalfNext] using hm)
     · intro ht hm; exact halone ht (by simpa [specHalfNext] using hm)
     · exact hev
@@ -328,7 +433,7 @@ theorem half_step (l : Layout) (nA nB : Name) (hne : nA ≠ nB) (c : ObjCfg) (s 
         cases hs : h.sees with
         | true =>
           have hss : sh.sees = true := by rw [hsees, hs]
-          refine ⟨?_, ⟨hss, hstart, rfl, ?_, ?_, ?_⟩⟩
+          refine ⟨?_, ⟨hss, hstart, rfl, ?_, ?_, ?_, applyVerdict_bound _ _ _ _ hbound⟩⟩
           · simp [checkOwn, specHalfNext, applyVerdict, ht, absVerdict, hss, ← hprev, deltaOk_setAuthority]
           · intro _ _; simp [applyVerdict, ht, absVerdict, setAuthority_paused]
           · intro _ hm; simp [specHalfNext, hss] at hm
@@ -337,7 +442,7 @@ theorem half_step (l : Layout) (nA nB : Name) (hne : nA ≠ nB) (c : ObjCfg) (s 
           have hss : sh.sees = false := by rw [hsees, hs]
           by_cases hg : inGrace h.start now = true
           · have hg' : inGrace sh.start now = true := by rw [hstart]; exact hg
-            refine ⟨?_, ⟨hss, hstart, rfl, ?_, ?_, ?_⟩⟩
+            refine ⟨?_, ⟨hss, hstart, rfl, ?_, ?_, ?_, applyVerdict_bound _ _ _ _ hbound⟩⟩
             · simp [checkOwn, specHalfNext, applyVerdict, ht, absVerdict, hss, hg, hg', ← hprev, deltaOk_refl]
               intro hm
               have := halone ht hm
@@ -352,20 +457,20 @@ theorem half_step (l : Layout) (nA nB : Name) (hne : nA ≠ nB) (c : ObjCfg) (s 
             · intro ha hr; simp [touched, ha, hr] at ht
           · have hgf : inGrace h.start now = false := by simpa using hg
             have hg' : inGrace sh.start now = false := by rw [hstart]; exact hgf
-            refine ⟨?_, ⟨hss, hstart, rfl, ?_, ?_, ?_⟩⟩
+            refine ⟨?_, ⟨hss, hstart, rfl, ?_, ?_, ?_, applyVerdict_bound _ _ _ _ hbound⟩⟩
             · simp [checkOwn, specHalfNext, applyVerdict, ht, absVerdict, hss, hgf, hg', ← hprev,
                 deltaOk_setAuthority, setAuthority_paused]
             · intro _ hm; simp [specHalfNext, hss, hg'] at hm
             · intro _ _; simp [applyVerdict, ht, absVerdict, hgf, setAuthority_paused]
             · intro ha hr; simp [touched, ha, hr] at ht
       | single =>
-        refine ⟨?_, ⟨hsees, hstart, rfl, ?_, ?_, ?_⟩⟩
+        refine ⟨?_, ⟨hsees, hstart, rfl, ?_, ?_, ?_, applyVerdict_bound _ _ _ _ hbound⟩⟩
         · simp [checkOwn, specHalfNext, applyVerdict, ht, absVerdict, ← hprev, deltaOk_setAuthority, setAuthority_paused]
         · intro _ hm; simp [specHalfNext] at hm
         · intro _ _; simp [applyVerdict, ht, absVerdict, setAuthority_paused]
         · intro ha hr; simp [touched, ha, hr] at ht
       | noZone =>
-        refine ⟨?_, ⟨hsees, hstart, rfl, ?_, ?_, ?_⟩⟩
+        refine ⟨?_, ⟨hsees, hstart, rfl, ?_, ?_, ?_, applyVerdict_bound _ _ _ _ hbound⟩⟩
         · simp [checkOwn, specHalfNext, applyVerdict, ht, absVerdict, ← hprev, deltaOk_setAuthority, setAuthority_paused]
         · intro _ hm; simp [specHalfNext] at hm
         · intro _ _; simp [applyVerdict, ht, absVerdict, setAuthority_paused]
@@ -373,7 +478,7 @@ theorem half_step (l : Layout) (nA nB : Name) (hne : nA ≠ nB) (c : ObjCfg) (s 
     · -- inactive or run-everywhere: the loop skips the object
       have htf : touched c = false := by simpa using ht
       rw [touched_not_everywhere c htf]
-      refine ⟨?_, ⟨hsees, hstart, rfl, ?_, ?_, hev⟩⟩
+      refine ⟨?_, ⟨hsees, hstart, rfl, ?_, ?_, hev, hbound⟩⟩
       · simp [checkOwn, htf, hprev, deltaOk_refl]
       · intro ht'; simp [htf] at ht'
       · intro ht'; simp [htf] at ht'
